@@ -482,6 +482,21 @@ def eliminate(facts, cls, info):
     """reads of verified derived members become their defining expression; their stores and fields go"""
     bad = set(v[2] for v in info["violations"])
     done = 0
+    # a derived member defined over another derived member is defined over that one's definition
+    good = {D: d for D, d in info["derived"].items() if D not in bad}
+
+    def expand(n, depth=0):
+        if isinstance(n, list):
+            return [expand(x, depth) for x in n]
+        if not isinstance(n, dict):
+            return n
+        if n.get("k") == "Member" and n.get("n") in good and depth < 4:
+            b_ = unwrap_all_casts(n.get("base"))
+            if isinstance(b_, dict) and b_.get("k") == "This":
+                return expand(copy.deepcopy(good[n["n"]]["E"]), depth + 1)
+        return {kk: (expand(vv, depth) if isinstance(vv, (dict, list)) else vv) for kk, vv in n.items()}
+    for D, d in good.items():
+        d["E"] = expand(d["E"])
     for D, d in info["derived"].items():
         if D in bad:
             continue
